@@ -47,6 +47,8 @@ func newRunCommand() *cli.Command {
 			if !c.Args().Present() {
 				return fmt.Errorf("no target specified")
 			}
+			// contexts are shut down once, after the last target, whether it succeeded or not
+			defer taskRunner.Finish()
 
 			for _, v := range c.Args().Slice() {
 				if v == "--" {
@@ -70,6 +72,7 @@ func newRunCommand() *cli.Command {
 				ArgsUsage: "task (TASK1) [TASK2]... [flags] [-- TASK_ARGS]",
 				Usage:     "run specified task(s)",
 				Action: func(c *cli.Context) error {
+					defer taskRunner.Finish()
 					for _, v := range c.Args().Slice() {
 						if v == "--" {
 							break
@@ -127,7 +130,6 @@ func runPipeline(g *scheduler.ExecutionGraph, taskRunner *runner.TaskRunner, sum
 	if err != nil {
 		return err
 	}
-	sd.Finish()
 
 	fmt.Fprint(os.Stdout, "\r\n")
 
@@ -139,14 +141,7 @@ func runPipeline(g *scheduler.ExecutionGraph, taskRunner *runner.TaskRunner, sum
 }
 
 func runTask(t *task.Task, taskRunner *runner.TaskRunner) error {
-	err := taskRunner.Run(t)
-	if err != nil {
-		return err
-	}
-
-	taskRunner.Finish()
-
-	return nil
+	return taskRunner.Run(t)
 }
 
 func taskArgs(c *cli.Context) []string {
